@@ -400,8 +400,8 @@ type exec struct {
 	fileSyncFailedInCall bool
 	dirSyncFailedInCall  bool
 	asked                []int // indices of the faults after which the caller had to decide (retry / go on)
-	surfaced             int // faults that reached the caller as an error or as the by-design panic
-	panics               int // by-design directory-sync panics
+	surfaced             int   // faults that reached the caller as an error or as the by-design panic
+	panics               int   // by-design directory-sync panics
 
 	acked    string   // value of the last Move that returned nil ("" initially)
 	maybe    []string // values of failed Moves since then
@@ -409,6 +409,7 @@ type exec struct {
 	step     string // description of where the script is
 
 	images, imgJudged int
+	maxUnits          int
 	newStates         []uint64
 	viols             []violation
 	label             []string
@@ -459,6 +460,7 @@ func (e *exec) capture(at string) {
 	during := e.inflight != nil
 	e.mem.VerifCrashEnum(func(units []vfs.VerifCrashUnit, clone func([]bool) *vfs.MemFS) {
 		n := len(units)
+		e.maxUnits = max(e.maxUnits, n)
 		keep := make([]bool, n)
 		one := func() {
 			kept := 0
@@ -837,6 +839,7 @@ type plan struct {
 
 type tally struct {
 	evals, trans, images, judged int64
+	maxUnits                     int
 	outcomes                     map[string]int64
 }
 
@@ -852,6 +855,7 @@ func explore(c *vlib.Ctx, script []string, desc bool, nf int, t *tally, sample b
 		t.evals++
 		t.trans += int64(e.calls)
 		t.images += int64(e.images)
+		t.maxUnits = max(t.maxUnits, e.maxUnits)
 		t.judged += int64(e.imgJudged)
 		t.outcomes[e.outcome()]++
 		if e.surfaced > 0 {
@@ -960,6 +964,7 @@ func TestCheck(t *testing.T) {
 				pe += lt.evals
 				pi += lt.images
 				total.images += lt.images
+				total.maxUnits = max(total.maxUnits, lt.maxUnits)
 				total.judged += lt.judged
 				for k, v := range lt.outcomes {
 					total.outcomes[k] += v
@@ -968,7 +973,7 @@ func TestCheck(t *testing.T) {
 			})
 			s := fmt.Sprintf("%d Moves x %s: %d scripts x listing orders -> %d executions, %d crash images", p.d, map[int]string{1: "0..1 faults", 2: "exactly 2 faults"}[p.faults], scriptCount(p.d), pe, pi)
 			if !complete {
-				c.Incomplete(fmt.Sprintf("budget expired in plan (%d Moves, <=%d faults) after %d of %d (script, listing order) items; earlier plans complete: %v", p.d, p.faults, done, n, scope))
+				c.Incomplete(fmt.Sprintf("budget expired in plan (%d Moves, %s) after %d of %d (script, listing order) items; completely covered: %v", p.d, map[int]string{1: "0..1 faults", 2: "exactly 2 faults"}[p.faults], done, n, scope))
 				scope = append(scope, s+" (INCOMPLETE)")
 				break
 			}
@@ -977,6 +982,7 @@ func TestCheck(t *testing.T) {
 		for k, v := range total.outcomes {
 			c.OutcomeN(k, v)
 		}
+		c.Note("max_unsynced_units_at_a_crash_point", total.maxUnits)
 		c.NoteAdd("crash_images_judged", total.images)
 		c.NoteAdd("crash_image_verdicts_computed", total.judged)
 		c.Note("scope", strings.Join(scope, "; "))
